@@ -21,6 +21,8 @@ TwMag3(a, n) == LET v == <<a[1], a[2], a[3]>>  w == <<a[4], a[5], a[6]>>
                 IN n > 0 /\ n * n = (IF w = <<0, 0, 0>> THEN DotN(v, v) ELSE DotN(w, w))
 TwMag2(a, n) == n > 0 /\ n * n = (IF a[3] = 0 THEN a[1] * a[1] + a[2] * a[2] ELSE a[3] * a[3])
 
+QuarterWrap(k) == CASE k % 4 = 0 -> << 0 >> [] k % 4 = 1 -> << 1 >> [] k % 4 = 3 -> << -1 >> [] OTHER -> << >>
+
 Expected(e) ==
   CASE e.fn = "skew3"    -> FlatM(Skew3(e.a))
     [] e.fn = "skew1"    -> FlatM(Skew1(e.a[1]))
@@ -48,6 +50,10 @@ Expected(e) ==
     [] e.fn = "unittwist_norm"  -> IF TwMag3(e.a, e.n) THEN e.a \o << e.n >> ELSE << >>
     [] e.fn = "unittwist2"      -> IF TwMag2(e.a, e.n) THEN e.a ELSE << >>
     [] e.fn = "unittwist2_norm" -> IF TwMag2(e.a, e.n) THEN e.a \o << e.n >> ELSE << >>
+    \* angle wrapping on multiples of a quarter turn: e.k quarter turns (minus e.m quarter turns) wrapped to
+    \* [-pi, pi), in quarter turns; half-turn differences (the end of the interval) are not given
+    [] e.fn = "angdiff1" -> QuarterWrap(e.k)
+    [] e.fn = "angdiff2" -> QuarterWrap(e.k - e.m)
     [] OTHER             -> << >>
 
 Init == l = 1 /\ bad = <<>>
